@@ -4,6 +4,7 @@ import Alpen.Model.Clean
 import Alpen.Model.PostAdd
 import Alpen.Model.Check
 import Alpen.Model.Reserve
+import Alpen.Model.Busy
 import Alpen.Model.UpDown
 import Alpen.Model.Queue
 import Alpen.Model.Task
@@ -248,6 +249,9 @@ def pure1 (toks : List String) : Option String :=
             pure (⟨← i.toNat?, ← decOptInt a, ← decBool u, ← decBool o, ← decBool f⟩ : TNode)
         | _ => none) nodes
       pure (match transportPick (← decBool loc) ns with | none => "-" | some i => toString i)
+  | ["gbusy", gf, nfs, reqs] => do
+      let q : GroupQueues := ⟨← gf.toNat?, ← decNats nfs⟩
+      pure (encNats (dispatchPass q (← decNats reqs)))
   | ["tgd", factor, size, loc, nodes] => do
       -- nodes: id:avail|-:underMin:overMax:bavail|-:reserved
       let ns ← decRecs (fun l => match l with
